@@ -91,7 +91,7 @@ func concCase(seed uint64, idx int, flush bool) *CaseSpec {
 				return t, nil
 			default:
 			}
-			id, master := h.S.VerifElection()
+			id, master := verifElectionWD(h)
 			mc := 0
 			for c, u := range h.uuid {
 				if u == master {
@@ -453,7 +453,7 @@ func concCase(seed uint64, idx int, flush bool) *CaseSpec {
 			mu.Unlock()
 		}
 		// quiescent state
-		id, master := h.S.VerifElection()
+		id, master := verifElectionWD(h)
 		mc := 0
 		for c, u := range h.uuid {
 			if u == master {
@@ -620,4 +620,23 @@ func init() {
 	// RPC behind; what they still hold must not wedge the RPCs of other sessions (a deadlock that
 	// needs the departed session and a later one)
 	props["C11"] = &PropSpec{Mode: "conc", Extra: []string{"gap", "eofdrain", "cut"}, Diffs: []string{"conc", "refs", "hang", "crash", "add.", "del.", "ents", "pend"}, Monitors: []string{"c11", "c03", "c01", "c02"}}
+}
+
+// verifElectionWD reads the server's election state under a watchdog.
+func verifElectionWD(h *SrvH) (*spb.Uint128, string) {
+	type r struct {
+		id *spb.Uint128
+		m  string
+	}
+	c := make(chan r, 1)
+	go func() { id, m := h.S.VerifElection(); c <- r{id, m} }()
+	select {
+	case x := <-c:
+		return x.id, x.m
+	case <-time.After(stepTO()):
+		noteIfWedged()
+		wdFired.Add(1)
+		h.wedged = true
+		return nil, "(hang)"
+	}
 }
